@@ -80,6 +80,18 @@ Proof.
   inversion H. split; reflexivity.
 Qed.
 
+Lemma roadm_el_ok : forall rs n e, roadm_el rs n = Ok e ->
+  el_uid e = URoadm (n_city n) /\ el_loc e = node_loc n /\
+  exists imps, mapM (row_impairments (n_city n)) (roadms_of (n_city n) rs) = Ok imps /\
+    el_c e = CRoadm (last_variety (roadms_of (n_city n) rs)) (restrictions n)
+                    (match roadms_of (n_city n) rs with [] => None | _ => Some (per_degree (n_city n) (roadms_of (n_city n) rs)) end)
+                    (cat_options imps).
+Proof.
+  intros rs n e H. unfold roadm_el in H.
+  destruct (mapM (row_impairments (n_city n)) (roadms_of (n_city n) rs)) as [imps|] eqn:E; cbn [bind] in H; [|discriminate].
+  inversion H. cbn [el_uid el_loc el_c]. repeat split. exists imps. split; reflexivity.
+Qed.
+
 Definition trx_conns (ns : list node) : list (uid * uid) :=
   flat_map (fun n => [(UTrx (n_city n), URoadm (n_city n)); (URoadm (n_city n), UTrx (n_city n))])
            (filter (is_t TRoadm) ns).
@@ -101,13 +113,14 @@ Definition uid_list (ns : list node) (ls : list link) (es : list eqpt) : list ui
   map (fun e => UEdfaTo West (e_from e) (e_to e)) es.
 
 Record built (ns : list node) (ls : list link) (es : list eqpt) (rs : list roadm_row) (n : net)
-             (b_ef b_wf b_ee b_we : list element) : Prop := mkBuilt {
+             (b_re b_ef b_wf b_ee b_we : list element) : Prop := mkBuilt {
+  b_re_ok : Forall2 (fun m e => roadm_el rs m = Ok e) (filter (is_t TRoadm) ns) b_re;
   b_ef_ok : Forall2 (fun l e => el_uid e = east_fiber_uid l /\ el_c e = fiber_content (l_east l)) ls b_ef;
   b_wf_ok : Forall2 (fun l e => el_uid e = west_fiber_uid l /\ el_c e = fiber_content (l_west l)) ls b_wf;
   b_ee_ok : Forall2 (fun q e => el_uid e = UEdfaTo East (e_from q) (e_to q) /\ el_c e = amp_content (e_east q)) es b_ee;
   b_we_ok : Forall2 (fun q e => el_uid e = UEdfaTo West (e_from q) (e_to q) /\ el_c e = amp_content (e_west q)) es b_we;
   b_elements : elements n =
-    map trx_el (filter (is_t TRoadm) ns) ++ map (roadm_el rs) (filter (is_t TRoadm) ns) ++
+    map trx_el (filter (is_t TRoadm) ns) ++ b_re ++
     map (fused_el West) (filter (is_t TFused) ns) ++ map (fused_el East) (filter (is_t TFused) ns) ++
     b_ef ++ b_wf ++ map (auto_edfa_el West) (auto_ilas ns es) ++ map (auto_edfa_el East) (auto_ilas ns es) ++
     b_ee ++ b_we;
@@ -115,16 +128,18 @@ Record built (ns : list node) (ls : list link) (es : list eqpt) (rs : list roadm
 }.
 
 Lemma build_inv : forall ns ls es rs n, NoDup (cities ns) -> links_distinct ls -> no_loops ls ->
-  build ns ls es rs = Ok n -> exists ef wf ee we, built ns ls es rs n ef wf ee we.
+  build ns ls es rs = Ok n -> exists re ef wf ee we, built ns ls es rs n re ef wf ee we.
 Proof.
   intros ns ls es rs n Hnd Hd Hl H. unfold build in H.
+  destruct (mapM (roadm_el rs) (filter (is_t TRoadm) ns)) as [re|] eqn:E0; cbn [bind] in H; [|discriminate].
   destruct (mapM (fiber_el ns East) ls) as [ef|] eqn:E1; cbn [bind] in H; [|discriminate].
   destruct (mapM (fiber_el ns West) ls) as [wf|] eqn:E2; cbn [bind] in H; [|discriminate].
   destruct (mapM (eqpt_el ns East) es) as [ee|] eqn:E3; cbn [bind] in H; [|discriminate].
   destruct (mapM (eqpt_el ns West) es) as [we|] eqn:E4; cbn [bind] in H; [|discriminate].
   destruct (mapM (fun n0 => eqpt_connection_by_city (n_city n0) ns ls es) ns) as [cx|] eqn:E5; cbn [bind] in H; [|discriminate].
   inversion H; subst n; clear H.
-  exists ef, wf, ee, we. constructor.
+  exists re, ef, wf, ee, we. constructor.
+  - apply mapM_Forall2 in E0. exact E0.
   - apply mapM_Forall2 in E1. eapply Forall2_weaken; [|exact E1]. intros l e He. exact (fiber_el_ok ns East l e He).
   - apply mapM_Forall2 in E2. eapply Forall2_weaken; [|exact E2]. intros l e He. exact (fiber_el_ok ns West l e He).
   - apply mapM_Forall2 in E3. eapply Forall2_weaken; [|exact E3]. intros q e He. exact (eqpt_el_ok ns East q e He).
@@ -137,12 +152,13 @@ Proof.
     + intros x y Hx Hy. exact (ecc_chains ns ls es x y Hnd Hd Hl Hx Hy).
 Qed.
 
-Lemma built_uids : forall ns ls es rs n ef wf ee we, built ns ls es rs n ef wf ee we ->
+Lemma built_uids : forall ns ls es rs n re ef wf ee we, built ns ls es rs n re ef wf ee we ->
   map el_uid (elements n) = uid_list ns ls es.
 Proof.
-  intros ns ls es rs n ef wf ee we B. destruct B as [B1 B2 B3 B4 B5 _]. rewrite B5. unfold uid_list.
-  rewrite !map_app, !map_map. cbn [trx_el roadm_el fused_el auto_edfa_el el_uid].
-  rewrite (Forall2_map_eq east_fiber_uid el_uid ls ef),
+  intros ns ls es rs n re ef wf ee we B. destruct B as [B0 B1 B2 B3 B4 B5 _]. rewrite B5. unfold uid_list.
+  rewrite !map_app, !map_map. cbn [trx_el fused_el auto_edfa_el el_uid].
+  rewrite (Forall2_map_eq (fun m => URoadm (n_city m)) el_uid (filter (is_t TRoadm) ns) re),
+          (Forall2_map_eq east_fiber_uid el_uid ls ef),
           (Forall2_map_eq west_fiber_uid el_uid ls wf),
           (Forall2_map_eq (fun q => UEdfaTo East (e_from q) (e_to q)) el_uid es ee),
           (Forall2_map_eq (fun q => UEdfaTo West (e_from q) (e_to q)) el_uid es we).
@@ -151,6 +167,7 @@ Proof.
   - eapply Forall2_weaken; [|exact B3]. intros x y [H _]. exact H.
   - eapply Forall2_weaken; [|exact B2]. intros x y [H _]. exact H.
   - eapply Forall2_weaken; [|exact B1]. intros x y [H _]. exact H.
+  - eapply Forall2_weaken; [|exact B0]. intros x y H. exact (proj1 (roadm_el_ok _ _ _ H)).
 Qed.
 
 (* ------------------------------------------------------------------ uids are unique *)
